@@ -353,7 +353,7 @@ func TestProp_C20_SysRand(t *testing.T) {
 		maxPairs = 32
 	}
 	rapid.Check(t, func(rt *rapid.T) {
-		sc := &SysScript{Pairs: rapid.IntRange(8, maxPairs).Draw(rt, "pairs"), Rounds: rapid.IntRange(1, 3).Draw(rt, "rounds"), V: rapid.SampledFrom([]int{0, 3, 2}).Draw(rt, "v"), Shared: rapid.Bool().Draw(rt, "shared")}
+		sc := &SysScript{Pairs: rapid.IntRange(8, maxPairs).Draw(rt, "pairs"), Rounds: rapid.IntRange(1, 3).Draw(rt, "rounds"), V: rapid.SampledFrom([]int{0, 3, 2}).Draw(rt, "v"), Shared: rapid.SampledFrom([]bool{true, true, false}).Draw(rt, "shared")}
 		sim.Judge(rt, "C20sysrand", sc)
 	})
 }
